@@ -56,7 +56,9 @@ def mimeOf (guesses : List (String × String)) (filename : String) : String :=
   | some g => if g.2 != "" then g.2 else "application/octet-stream"
   | none => "application/octet-stream"
 
-/-- `write_pdf_attachment(pdf, attachment, compress)`; `next = len(pdf.objects)`.
+/-- `write_pdf_attachment(pdf, attachment, compress)`; `next = len(pdf.objects)`.  `attachment.source` is a
+property that opens the source anew for each call (a0bb005), so the function of an `Attachment` is the
+same for every PDF written from the document: the model has no state for it.
 `none`: the error was logged and nothing was added. -/
 def writeAttachment (guesses : List (String × String)) (next : Nat) (a : Att) : Option FileSpec × Nat :=
   match a.size with
@@ -119,17 +121,6 @@ def embeddedFiles (cpsOf : String → List Nat) (guesses : List (String × Strin
   let r := writeAll guesses next atts
   if r.1.isEmpty then (r.1, none, r.2)
   else (r.1, some ⟨r.2, (sortSpecs cpsOf r.1).map (fun f => (f.filename, f.spec))⟩, r.2 + 1)
-
-/-- The "Embedded files" block when the same `Document` (or a `Document.copy` of it, which shares
-`metadata`) is written **again**: `Attachment.source` is the generator context manager made once by
-`_select_source(...)` in `Attachment.__init__`; its first `__enter__` deleted `self.args`, so
-`with attachment.source` raises `AttributeError` on the first attachment of `metadata.attachments`
-— readable or not — and `except URLFetchingError` does not catch it.  Attachments passed in the
-`attachments` option are new objects for each call and are not concerned. -/
-def writeAllAgain (metaAtts : List Att) : Except PyErr Unit :=
-  match metaAtts with
-  | [] => .ok ()
-  | _ :: _ => .error (.noneAttribute "_GeneratorContextManager.args")
 
 /-- `<link rel=attachment href=… title=…>` as `get_html_metadata` sees it: `href` is the resolved URL
 (`get_url_attribute`), `none` when the attribute is missing. -/
